@@ -186,12 +186,11 @@ class Lab:
         return {"design": design, "gen": gen, "ex": ex, "init": {p: s0[p][0] for p in s0}, "ws": ws}
 
     def references(self, designs):
-        first = self.reference(designs[0])
-        self.warm(first["ws"])
-        refs = {designs[0]: first}
+        refs = {}
         with cf.ThreadPoolExecutor(max_workers=8) as ex:
-            for r in ex.map(self.reference, designs[1:]):
+            for r in ex.map(self.reference, designs):
                 refs[r["design"]] = r
+        self.warm(refs[designs[0]]["ws"])
         return refs
 
     # ------------------------------------------------------------------ cases
